@@ -233,7 +233,7 @@ class TraitList(list):
         added : list
             The items being added to the list.
         """
-        for notifier in self.notifiers:
+        for notifier in self.notifiers[:]:
             notifier(self, index, removed, added)
 
     # -- list interface -------------------------------------------------------
